@@ -4,7 +4,8 @@ NOT_YET = "check under construction (nothing is claimed for it yet)"
 
 CFG = dict(
     rule="case 0 re-reads rpc_server.go with go/ast: every closure handed to runLaterIfActive, its acyclic paths and the sends on queuedResults per path "
-         "(must be exactly 1; unknown constructs are reported, never guessed). Other cases run the REAL SourceControl RPC methods in-process (one child "
+         "(must be exactly 1). The reader is interprocedural: calls to package functions / methods on the same receiver that can reply are inlined "
+         "(bounded depth); a closure it still cannot classify is reported with the ok-tag static-reader-unrecognised and left to the behavioural tie, never guessed. Other cases run the REAL SourceControl RPC methods in-process (one child "
          "process per chunk, a crash becomes the output PANIC) on a running real source (real Start + CoreLoop, scripted VerifLoopSource): `hist` = 1-8 requests "
          "with fuzzed arguments (ConfigureTriggers, ConfigurePulseLengths, ConfigureProjectorsBasis incl. malformed base64/matrix bytes, WriteControl with 10 "
          "request strings x 3 path kinds x file-type flags, SetExperimentStateLabel(wait), WriteComment, FB/err coupling, group-trigger coupling, "
